@@ -21,7 +21,7 @@ func EvalAgg(a Agg, rows []map[string]any) (any, error) {
 	if a.Fn == "COUNT" {
 		if a.Col != "*" {
 			for _, r := range rows {
-				if r[a.Col] == nil {
+				if Lookup(r, a.Col) == nil {
 					return nil, domain("COUNT(col) over a NULL member")
 				}
 			}
@@ -30,7 +30,7 @@ func EvalAgg(a Agg, rows []map[string]any) (any, error) {
 	}
 	var vals []float64
 	for _, r := range rows {
-		v := r[a.Col]
+		v := Lookup(r, a.Col)
 		if v == nil {
 			if a.Fn == "AVG" {
 				return nil, domain("AVG over a NULL member")
